@@ -8,6 +8,7 @@
 #define W_SHA_UF
 #include "w_stubs.h"
 #define GLUE_MAX 16
+#define GLUE_ADD
 #include "w_glue.h"
 static int sqrt_fail_at = -1, sqrt_calls_n;
 /* lift_x decision recorded (the stub in w_stubs is replaced here) */
@@ -51,11 +52,21 @@ void harness_aggverify(void) {
     if (s >= verif_N()) __CPROVER_assert(r == 0, "aggregate s >= n rejected");
     if (badr) __CPROVER_assert(r == 0, "r_i >= p rejected");
     if (badpk) __CPROVER_assert(r == 0, "invalid public key rejected");
-    if (r) {
-        int last = glue_calls - 1;
-        __CPROVER_assert(verif_illegal_count == 0, "accept => no illegal callback");
-        __CPROVER_assert(glue_kind[last] == 2 && (bvw)sc_bv(&glue_ng[last]) == s, "lhs = s G for the aggregate's s");
-        __CPROVER_assert(0, "witness: acceptance reachable");
+    {   /* final decision: accept <=> s*G == rhs as POINTS (both coordinates), rhs = the accumulated sum of z_i (R_i + e_i P_i) */
+        int g = -1, k;
+        for (k = 0; k < GLUE_MAX; k++) if (k < glue_calls && glue_kind[k] == 2) g = k;
+        if (r) __CPROVER_assert(g >= 0 && (bvw)sc_bv(&glue_ng[g]) == s && verif_illegal_count == 0, "accept => lhs = s G for the aggregate's s, no illegal callback");
+        if (g >= 0) {
+            secp256k1_gej lhs = glue_R[g], rhs; int eq;
+            if (NSIG == 0) { rhs = lhs; rhs.infinity = 1; } else rhs = glue_R[g - 1];
+            __CPROVER_assert(NSIG == 0 || glue_kind[g - 1] == 5, "rhs is the running sum of the z_i T_i");
+            eq = (lhs.infinity || rhs.infinity) ? (lhs.infinity && rhs.infinity) : (fe_val(&lhs.x) == fe_val(&rhs.x) && fe_val(&lhs.y) == fe_val(&rhs.y));
+            __CPROVER_assert(r == eq, "aggverify accepts exactly when s*G equals the right-hand side as a point (x AND y)");
+#if NSIG > 0
+            __CPROVER_assert(!(!r && !lhs.infinity && !rhs.infinity && fe_val(&lhs.x) == fe_val(&rhs.x)), "witness: same x, opposite y is reachable and rejected");
+#endif
+        }
+        __CPROVER_assert(!r, "witness: acceptance reachable");
     }
 }
 #endif
